@@ -123,6 +123,7 @@ class C03(core.Check):
             'mid-line, in gap, last+1, >last}, fill 0..255; expected file = [M.get(a, fill) for a in start..end]. '
             'distinct_nontrivial = distinct (start class, end class, last-line kind, fill!=0, muted, predefined) tuples. '
             'thorough adds 20 fixed programs x every (start,end) with 0<=start<=end<=40.')
+    rule = rule + ' ' + 'A directed family puts windows below / above a redefined GLOBAL zone and beyond a small address space.'
     assumptions = ('programs that emit no byte with no explicit end, end < start and fill outside 0..255 are DONT_CARE',
                    'byte-producing lines never overlap here (C04 owns overlap)')
     chunk = 1500
